@@ -275,6 +275,17 @@ def run(ctx: Ctx, rs: RuleSet, tier: str):
   reach = ctx.cg.reachable(ENTRY_POINTS,
                            kinds=('exact', 'ref', 'nested', 'proto'))
 
+  # a classified object that moved to another module (the old module keeps an
+  # alias of it) keeps its classification
+  classified = {}
+  for q0, c0 in CLASSIFIED.items():
+    q1 = q0
+    if q0 not in objs:
+      q1 = common.relocated_global(ctx, q0)
+      if q1 not in objs:
+        q1 = q0
+    classified[q1] = c0
+  CLASSIFIED_NOW = classified
   rule = 'SHARED.audit'
   rs.declare(rule, 'every module-level mutable object written on a path from '
              'the entry points is classified', 15)
@@ -282,7 +293,7 @@ def run(ctx: Ctx, rs: RuleSet, tier: str):
     kind, node = objs[q]
     ws = writers[q]
     reachable_ws = [(fq, n, how) for fq, n, how in ws if fq in reach]
-    cls = CLASSIFIED.get(q)
+    cls = CLASSIFIED_NOW.get(q)
     mod = p.modules[q.rsplit('.', 1)[0]] if q.rsplit('.', 1)[0] in p.modules else None
     loc = f'{mod.relpath}:{getattr(node, "lineno", 0)}' if mod else ''
     if not reachable_ws:
@@ -308,7 +319,7 @@ def run(ctx: Ctx, rs: RuleSet, tier: str):
   rule = 'SHARED.classification'
   rs.declare(rule, 'each classification is justified by the object\'s '
              'construction and by how it is accessed', 6)
-  for q, (c, why) in sorted(CLASSIFIED.items()):
+  for q, (c, why) in sorted(CLASSIFIED_NOW.items()):
     if q not in objs:
       rs.fail(rule, q, f'classified object {q} no longer exists as shared '
               'state (table out of date)', '')
